@@ -42,7 +42,7 @@ ASSUMPTIONS = ["run-functions poll job.status and return soon after seeing CANCE
                "backends covered: serial, thread, process (fresh interpreter, log shared through a multiprocessing manager); loky in the thorough tier"]
 RULE = ("timeouts {1,2}s x workers {1,2,4} x backend {serial, thread, process, loky(thorough)} x search class {RandomSearch, CBO(DUMMY surrogate)} x mode {search(timeout), "
         "search(max_evals, timeout) plain/strict, evaluator.timeout + gather, evaluator.timeout + search(max_evals), two timed search() calls in a row on one search object, "
-        "evaluator.timeout + gather(BATCH) + close() while jobs are in CANCELLING, a budget re-armed while one is set (evaluator.timeout = t1; batch; evaluator.timeout = t2; batch / evaluator.timeout armed before a search(timeout=)), a second evaluator on the same storage and search id gathering the jobs of a timed search during or after it} x per-job behaviours (returned value 1000+id or the falsy 0; short jobs finishing before the deadline, "
+        "evaluator.timeout + gather(BATCH) + close() while jobs are in CANCELLING, a budget re-armed while one is set (evaluator.timeout = t1; batch; evaluator.timeout = t2; batch / evaluator.timeout armed before a search(timeout=)), a second evaluator on the same storage and search id gathering the jobs of a timed search during or after it, a direct session closed while jobs run / are CANCELLING / queued followed by a timed search on the same evaluator (watchdog)} x per-job behaviours (returned value 1000+id or the falsy 0; short jobs finishing before the deadline, "
         "jobs that never poll, jobs finishing within +-60 ms of the deadline, long jobs polling at different intervals until CANCELLING and returning at once or after more work); "
         "non-trivial = DONE and CANCELLED rows in one run")
 CLAUSE = {1: "illegal_status_sequence_or_stale_poll", 2: "no_terminal_status", 3: "row_count", 4: "row_status", 5: "value_not_kept",
@@ -51,7 +51,7 @@ CLAUSE = {1: "illegal_status_sequence_or_stale_poll", 2: "no_terminal_status", 3
 F_CHECK = 1401
 F_ACCEPT = 1402
 # observed event kinds (see Entry.v)
-K_W, K_START, K_POLL, K_RET, K_FIN, K_SUBMIT, K_GIN, K_GOUT, K_S0, K_S, K_CIN, K_COUT, K_RETURN, K_AGAIN, K_COLLECTED = range(15)
+K_W, K_START, K_POLL, K_RET, K_FIN, K_SUBMIT, K_GIN, K_GOUT, K_S0, K_S, K_CIN, K_COUT, K_RETURN, K_AGAIN, K_COLLECTED, K_COUNTS = range(16)
 OLD_KINDS = (K_W, K_START, K_POLL, K_RET, K_S)
 ST_NAME = {0: "READY", 1: "RUNNING", 2: "DONE", 3: "CANCELLING", 4: "CANCELLED"}
 # clause of a rejection by the global acceptor: (kind, status of a write) -> name
@@ -61,7 +61,7 @@ ACCEPT_CLAUSE = {
     K_START: "model:run_function_started_unexpectedly", K_POLL: "model:poll_saw_another_status_than_written_last", K_RET: "model:run_function_returned_twice_or_unstarted",
     K_FIN: "model:execute_returned_before_the_run_function", K_SUBMIT: "model:submit_inside_gather", K_GIN: "model:gather_reentered", K_GOUT: "model:gather_returned_with_nothing_collected",
     K_S0: "model:cancelling_before_the_early_sentinel", K_S: "model:sentinel", K_CIN: "model:close_inside_gather", K_COUT: "close_left_job_unsettled",
-    K_RETURN: "model:returned_before_close", K_AGAIN: "model:search_called_again_before_return", K_COLLECTED: "model:collected_without_done_or_before_execute_returned"}
+    K_COUNTS: "counters_differ_from_model", K_RETURN: "model:returned_before_close", K_AGAIN: "model:search_called_again_before_return", K_COLLECTED: "model:collected_without_done_or_before_execute_returned"}
 
 
 def facts(repo):
@@ -104,7 +104,7 @@ def job_no(job):
 #   behaviour = [kind, dur, every, extra, value]
 #     short  : polls every `every` until `dur` has passed, then returns (never waits for CANCELLING)
 #     nopoll : sleeps `dur` once, never reads the status
-#     long   : polls every `every` until it sees CANCELLING, then works `extra` more, polls once more, returns
+#     long   : polls every `every` until it sees CANCELLING (or CANCELLED: close() gave it up), then works `extra` more, polls once more, returns
 # ---------------------------------------------------------------------------------------------------------------------
 def run_body(job, plan, cap, emit, sleep, CANCELLING):
     """generator-free synchronous body; `sleep` blocks. Returns the value."""
@@ -118,7 +118,7 @@ def run_body(job, plan, cap, emit, sleep, CANCELLING):
         while time.time() - t0 < (dur if kind == "short" else cap):
             sleep(every)
             s = emit(jid, K_POLL, job)
-            if s is CANCELLING:
+            if s in CANCELLING:
                 if extra:
                     sleep(extra)
                     emit(jid, K_POLL, job)
@@ -139,7 +139,7 @@ async def run_body_async(job, plan, cap, emit, CANCELLING):
         while time.time() - t0 < (dur if kind == "short" else cap):
             await asyncio.sleep(every)
             s = emit(jid, K_POLL, job)
-            if s is CANCELLING:
+            if s in CANCELLING:
                 if extra:
                     await asyncio.sleep(extra)
                     emit(jid, K_POLL, job)
@@ -175,6 +175,7 @@ def instrument(evaluator, emit, hooks):
             return o_close()
         finally:
             emit(0, K_COUT, 0)
+            emit(0, K_COUNTS, max(0, evaluator.num_jobs_submitted - evaluator.num_jobs_gathered))
 
     def upd(job, output):
         emit(job_no(job), K_FIN, 0)
@@ -195,6 +196,39 @@ def make_search(case, problem, evaluator, d):
     if case.get("search", "random") == "cbo":
         return CBO(problem, evaluator, random_state=1, log_dir=d, surrogate_model="DUMMY")
     return RandomSearch(problem, evaluator, random_state=1, log_dir=d)
+
+
+class SearchHung(Exception):
+    pass
+
+
+class Watchdog:
+    """search() must return once the running evaluations have returned: if it has not `seconds` after the call (budget + 15 s,
+    every run-function ends at budget + 3.5 s at the latest) the main thread is interrupted by a signal (it also wakes a blocked
+    event loop) and the case reports `search_did_not_return` instead of waiting for the stream's own timeout"""
+
+    def __init__(self, seconds):
+        self.seconds = seconds
+
+    def __enter__(self):
+        import signal
+
+        def handler(signum, frame):
+            raise SearchHung()
+
+        self.main = threading.main_thread().ident
+        self.old = signal.signal(signal.SIGUSR1, handler)
+        self.timer = threading.Timer(self.seconds, lambda: signal.pthread_kill(self.main, signal.SIGUSR1))
+        self.timer.daemon = True
+        self.timer.start()
+        return self
+
+    def __exit__(self, *exc):
+        import signal
+
+        self.timer.cancel()
+        signal.signal(signal.SIGUSR1, self.old)
+        return False
 
 
 class PeerThread(threading.Thread):
@@ -245,7 +279,9 @@ def drive(case, evaluator, emit, snapshot, hooks):
         emit(0, K_S, 0)
 
     def arm(t_budget):
-        """sentinels of the search() call / evaluator budget that starts now"""
+        """sentinels of the search() call / evaluator budget that starts AFTER this call (so every deadline below is early)"""
+        # first of all (starting the timer threads may take long on a loaded machine): the early sentinel is due 0.5 s before the deadline
+        early["at"], early["fired"] = time.time() + t_budget - 0.5, False
         ts = [threading.Timer(t_budget + 0.4, emit, (0, K_S, 0)), threading.Timer(t_budget + 1.9, second_sentinel)]
         for t in ts:
             t.daemon = True
@@ -254,7 +290,6 @@ def drive(case, evaluator, emit, snapshot, hooks):
         # the early sentinel is a timer of the evaluator's own event loop, due 0.5 s before the deadline and set at the first submit
         # of the call: the loop fires its timers in the order of their deadlines, so it precedes the wait_for timeouts of a fresh
         # budget whatever the load (the budget starts after this point, so the margin is at least 0.5 s)
-        early["at"], early["fired"] = time.time() + t_budget - 0.5, False
 
         def after_submit():
             hooks["after_submit"] = None
@@ -315,8 +350,8 @@ def drive(case, evaluator, emit, snapshot, hooks):
     with tempfile.TemporaryDirectory(prefix="vp_c14_") as d:
         if mode == "evaluator":
             # evaluator-level timeout with more jobs submitted than workers: some jobs are still queued at the deadline
-            evaluator.timeout = T
             arm(T)
+            evaluator.timeout = T
             evaluator.submit([{"x": float(i)} for i in range(case["njobs"])])
             jobs = evaluator.gather("ALL")
             evaluator.close()
@@ -345,6 +380,17 @@ def drive(case, evaluator, emit, snapshot, hooks):
         else:
             search = make_search(case, problem, evaluator, d)
             peer = peer_thread = None
+            if mode == "close_then_search":
+                # a direct session on the evaluator, closed while its jobs are running / in CANCELLING / queued (close() kills them),
+                # THEN a timed search on the same evaluator: it must return, and report the jobs of both
+                evaluator.timeout = case["first_timeout"]
+                evaluator.submit([{"x": float(i)} for i in range(case["njobs1"])])
+                evaluator.gather("BATCH", 1)
+                evaluator.close()
+                if case["first"] == "running":
+                    evaluator.timeout = None
+                emit(0, K_RETURN, 0)
+                emit(0, K_AGAIN, 1)
             if mode == "peer":
                 # a second evaluator attached to the same storage and search id: it gathers the jobs of the first one (during its
                 # timed search, or after it); every status write of both goes through the same logging storage
@@ -368,7 +414,14 @@ def drive(case, evaluator, emit, snapshot, hooks):
                 df = search.search(timeout=T)
             else:
                 arm(T)
-                if mode in ("search", "peer", "evbudget_search"):
+                if mode == "close_then_search":
+                    try:
+                        with Watchdog(T + 15):
+                            df = search.search(timeout=T) if not case.get("max_evals") else search.search(max_evals=case["max_evals"], timeout=T)
+                    except SearchHung:
+                        df = None
+                        extra["hung"] = [evaluator.num_jobs_submitted, evaluator.num_jobs_gathered, len(evaluator._tasks_running)]
+                elif mode in ("search", "peer", "evbudget_search"):
                     df = search.search(timeout=T)
                 elif mode == "evtimeout_search":
                     # the time budget is set on the evaluator, the search call has no `timeout` of its own
@@ -384,14 +437,15 @@ def drive(case, evaluator, emit, snapshot, hooks):
                 emit(0, K_RETURN, 0)
                 extra["peer_table"] = peer_stage(peer, peer_thread, case["peer"])
         returned_early()
-        if not extra:
+        if "peer_table" not in extra:
             emit(0, K_RETURN, 0)
         n_at_return = len(snapshot())
         time.sleep(settle)
         for t in timers:
             t.cancel()
         tr = snapshot()
-        late = sum(1 for e in tr[n_at_return:] if e[1] in (K_START, K_POLL, K_RET))
+        k0 = case["njobs1"] if mode == "close_then_search" else 0  # jobs given up by close() may still run in a pool worker
+        late = sum(1 for e in tr[n_at_return:] if e[1] in (K_START, K_POLL, K_RET) and e[0] >= k0)
     return table, late, tr, extra
 
 
@@ -427,10 +481,10 @@ def run_case(case):
             return [list(e) for e in trace]
 
     async def run_async(job):
-        return await run_body_async(job, plan, cap, emit, JobStatus.CANCELLING)
+        return await run_body_async(job, plan, cap, emit, (JobStatus.CANCELLING, JobStatus.CANCELLED))
 
     def run_sync(job):
-        return run_body(job, plan, cap, emit, time.sleep, JobStatus.CANCELLING)
+        return run_body(job, plan, cap, emit, time.sleep, (JobStatus.CANCELLING, JobStatus.CANCELLED))
 
     storage = LoggingStorage()
     backend = case["backend"]
@@ -472,7 +526,7 @@ def run_case_process(case):
 
 
 def budget_code(case):
-    return 2 if case.get("mode", "search") in ("evaluator", "evtimeout_search", "early_close", "rearm", "evbudget_search") else 1
+    return 2 if case.get("mode", "search") in ("evaluator", "evtimeout_search", "early_close", "rearm", "evbudget_search", "close_then_search") else 1
 
 
 def check(case):
@@ -484,15 +538,24 @@ def check(case):
     res = dict(ok=True, kind="oracle", clause="", nontrivial=(2 in statuses and 4 in statuses), sig=sig,
                desc=["mode=" + mode, "backend=" + case["backend"], "search=" + case.get("search", "random"), "workers=%d" % case["workers"], "timeout=%d" % case["timeout"],
                      "jobs=%d" % njobs, "mixed_done_cancelled" if (2 in statuses and 4 in statuses) else "uniform"] + ["plan:" + k for k in kinds])
+    if extra.get("hung"):
+        # "the search returns once the running evaluations have returned": it had not, long after the last run-function returned
+        started = set(e[0] for e in tr if e[1] == K_START)
+        returned = set(e[0] for e in tr if e[1] == K_RET)
+        return dict(res, ok=False, kind="oracle", clause="search_did_not_return", sig=dict(mode=mode, clause="search_did_not_return"),
+                    detail=dict(counters_submitted_gathered_tasks=extra["hung"], run_functions_still_running=sorted(started - returned), tail=[describe(x) for x in tr[-30:]]))
     # ---- (b) the per-job oracle (not for the close()-kills of early_close: close() does not wait for the run-functions) ----
     if mode != "early_close":
-        old = [e for e in tr if e[1] in OLD_KINDS]
-        vals = sorted({e[0]: e[2] for e in tr if e[1] == K_RET}.items())
-        ok, j, clause = model().call(F_CHECK, [njobs, [[e[0], e[1], 0 if e[1] == K_RET else e[2]] for e in old], [list(v) for v in vals], table, -1, late])
+        # chained mode: the jobs of the direct session (killed by close()) are left to the global model; the jobs of the search are renumbered from 0
+        k0 = case["njobs1"] if mode == "close_then_search" else 0
+        old = [[e[0] - k0] + list(e[1:]) for e in tr if e[1] in OLD_KINDS and (e[0] >= k0 or e[1] == K_S)]
+        vals = sorted({e[0]: e[2] for e in old if e[1] == K_RET}.items())
+        ok, j, clause = model().call(F_CHECK, [njobs - k0, [[e[0], e[1], 0 if e[1] == K_RET else e[2]] for e in old], [list(v) for v in vals],
+                                               [[r[0] - k0, r[1], r[2]] for r in table if r[0] >= k0], -1, late])
         if not ok:
             name = CLAUSE.get(clause, str(clause))
             return dict(res, ok=False, clause=name, sig=dict(sig, clause=name),
-                        detail=dict(job=j, job_trace=[e for e in old if e[0] == j or e[1] == K_S][:80], row=[r for r in table if r[0] == j], njobs=njobs, rows=len(table), late=late))
+                        detail=dict(job=j + k0, job_trace=[e for e in old if e[0] == j or e[1] == K_S][:80], row=[r for r in table if r[0] == j + k0], njobs=njobs, rows=len(table), late=late))
     # ---- (c) the global model ----
     acc, pos, code, races, phase, agree, mjobs = model().call(F_ACCEPT, [case["workers"], budget_code(case), [e[:3] for e in tr], table, -1])
     res["desc"].append("deadline_races=%d" % min(races, 3))
@@ -534,7 +597,7 @@ def describe(e):
 def describe3(e):
     j, k, a = e
     names = {K_W: "W", K_START: "start", K_POLL: "poll", K_RET: "return", K_FIN: "execute-returns", K_SUBMIT: "submit(", K_GIN: "gather{", K_GOUT: "}gather", K_S0: "EARLY-SENTINEL",
-             K_S: "SENTINEL", K_CIN: "close{", K_COUT: "}close", K_RETURN: "search-returned", K_AGAIN: "search-again", K_COLLECTED: "collected"}
+             K_S: "SENTINEL", K_CIN: "close{", K_COUT: "}close", K_RETURN: "search-returned", K_AGAIN: "search-again", K_COLLECTED: "collected", K_COUNTS: "submitted-gathered="}
     if k in (K_W, K_POLL):
         return "%s j%d %s" % (names[k], j, ST_NAME.get(a, a))
     if k in (K_START, K_FIN, K_COLLECTED):
@@ -543,10 +606,12 @@ def describe3(e):
         return "return j%d -> %s" % (j, a)
     if k == K_SUBMIT:
         return "submit(%d)" % a
+    if k == K_COUNTS:
+        return "submitted-gathered=%d" % a
     return names.get(k, str(k))
 
 
-MODES = ["search", "evaluator", "search_strict", "evtimeout_search", "search_max", "two_calls", "early_close", "rearm", "evbudget_search", "peer"]
+MODES = ["search", "evaluator", "search_strict", "evtimeout_search", "search_max", "two_calls", "early_close", "rearm", "evbudget_search", "peer", "close_then_search"]
 PEER_HOW = ["other", "gather_all", "during"]
 
 
@@ -624,6 +689,20 @@ def gen(count, pairs):
                 c["plan"] = [p for p in plan if not (p[0] != "long" and p[1] > 0.5)]
                 if not any(p[0] == "long" and p[4] == "id" for p in c["plan"]):
                     c["plan"].append(["long", 0, 0.1, 0, "id"])  # a cancelled job with a truthy value
+            elif mode == "close_then_search":
+                # direct session with one job more than workers: close() finds jobs running (first = running: job 0 is short, close comes
+                # before the expiry) or in CANCELLING (job 0 returns as soon as told, the others keep working 0.8 s) and one queued / just
+                # started; then search(timeout=T) or search(max_evals, timeout=T) on the same evaluator, under a watchdog
+                c["first"] = ["running", "cancelling"][(i // len(MODES) + i // len(pairs)) % 2]
+                c["first_timeout"] = 1
+                c["workers"] = W = max(W, 2)
+                c["njobs1"] = k = W + 1
+                if i % 3 == 0:
+                    c["max_evals"] = rng.choice([W + 1, 2 * W + 1])
+                head = ["short", 0.2, 0.05, 0, "id"] if c["first"] == "running" else ["long", 0, 0.05, 0, "id"]
+                rest = [p for p in plan if not (p[0] != "long" and p[1] > 0.5)]
+                # plan entries are used by job id modulo the plan length: ids 0..k-1 are the direct session, the search gets the full mix
+                c["plan"] = ([head] + [["long", 0, rng.choice([0.05, 0.1]), 0.8 if c["first"] == "cancelling" else 0, rng.choice(["id", "zero"])] for _ in range(k - 1)] + rest)
             elif mode == "early_close":
                 # job 0 returns as soon as it is told; the others keep working 0.8 s in CANCELLING: close() finds them there
                 c["timeout"] = 1
@@ -652,4 +731,4 @@ def streams(tier):
     # every (mode, backend) pair occurs: thread and serial twice per round, process once (loky: thorough only)
     backs = ("serial", "thread", "process", "thread", "serial") + (("loky",) if th else ())
     pairs = [(m, b) for b in backs for m in MODES]
-    return [Stream("timeout_searches", gen(300 if th else 50, pairs), check, shrink, timeout=180)]
+    return [Stream("timeout_searches", gen(330 if th else 55, pairs), check, shrink, timeout=180)]
